@@ -53,6 +53,7 @@ func (c01) ID() string { return "C01" }
 func (c01) Rule() string {
 	return "cases: (enum) complete enumeration of all native frames of n bytes over the alphabet {00,01,FF} for each of the 12 plane layouts (batched; sub-cases distinct by construction); " +
 		"(struct) frames built from run/literal items with lengths around 2/3 and 127/128/129/256; (rand) seeded geometries x content classes; (long) 65535x1 and 1x65535 per layout; (area) pixel counts around 2^16 and 2^17 with both dimensions moderate. " +
+		"a third of the (rand) frames declare BitsStored below BitsAllocated (half of those a whole byte plane lower) and either PixelRepresentation, with arbitrary bytes above BitsStored. " +
 		"A case is non-trivial when Encode accepted the frame and all three oracles (library round trip, Annex G structure, independent PackBits reader) were evaluated; distinct = distinct descriptor."
 }
 func (c01) Assumptions() []string {
